@@ -19,8 +19,8 @@ def run(ctx):
                 seen.add(key)
                 out.append(dict(s, bind={}, dens=[]))
         if ctx.quick:       # all primitives, every 4th composite
-            prim = [s for s in out if s["expr"]["k"] in ("par", "tri", "circle", "interval", "sphere")]
-            rest = [s for s in out if s["expr"]["k"] not in ("par", "tri", "circle", "interval", "sphere")]
+            prim = [s for s in out if s["expr"]["k"] in ("par", "tri", "circle", "interval", "sphere", "poly", "mesh")]
+            rest = [s for s in out if s["expr"]["k"] not in ("par", "tri", "circle", "interval", "sphere", "poly", "mesh")]
             out = prim + ctx.stratified(rest, 0.25, key=lambda s: geo_sig(s["expr"], False))
         scen = out
     traces = ctx.drive("geoattr", scen, timeout=3000)
